@@ -7,7 +7,7 @@
 (* the original accepts.  TLC explores every reachable tuple of automaton  *)
 (* states, i.e. all candidate paths.                                       *)
 (***************************************************************************)
-EXTENDS Naturals, Sequences, TLC, Json, IOUtils
+EXTENDS KnownFindings, Json, IOUtils
 
 Obs == ndJsonDeserialize(IOEnv.OBS)     \* Obs[i].id = i
 Rel == ndJsonDeserialize(IOEnv.REL)
@@ -36,8 +36,26 @@ AccO == Orig.dfa.acc[qo]
 AccM == \E i \in DOMAIN qm : Mem(i).dfa.acc[qm[i]]
 
 Report(r) == PrintT(ToJson(r))
+
+(* Attribution: is the disagreement what the pinned position-dependent encodings of the tree wildcard *)
+(* produce?  It is iff every program involved accepts the path exactly when the strict automaton      *)
+(* under the implementation-shaped tags (KnownFindings!TagImpl) does.                                 *)
+TreeOfRec(o) ==
+  IF o.kind = "any" THEN
+     LET ps == [i \in 1..Len(o.members) |-> Parse(o.members[i])] IN
+     IF \A i \in DOMAIN ps : ps[i].st = "ok"
+     THEN [ok |-> TRUE, T |-> <<[k |-> "alt", bs |-> [i \in DOMAIN ps |-> Strip(ps[i].toks)]]>>]
+     ELSE [ok |-> FALSE, T |-> <<>>]
+  ELSE LET p == Parse(o.e) IN IF p.st = "ok" THEN [ok |-> TRUE, T |-> Strip(p.toks)] ELSE [ok |-> FALSE, T |-> <<>>]
+DevSays(o, acc) == LET r == TreeOfRec(o) IN r.ok /\ Accepts(TagImplTop(r.T), path, TRUE) = acc
+DevExplains ==
+  /\ DevSays(Orig, Orig.dfa.acc[qo])
+  /\ \A i \in DOMAIN qm : DevSays(Mem(i), Mem(i).dfa.acc[qm[i]])
+
 Laws ==
-  /\ (AccM => AccO) \/ Report([t |-> "DISAGREE", what |-> "member_accepts_original_rejects", rel |-> rel, path |-> path])
+  /\ (AccM => AccO) \/ Report([t |-> "DISAGREE", what |-> "member_accepts_original_rejects", rel |-> rel, path |-> path,
+                                   dev |-> DevExplains])
   /\ (Rel[rel].mode = "eq" /\ AccO => AccM)
-       \/ Report([t |-> "DISAGREE", what |-> "original_accepts_no_member_does", rel |-> rel, path |-> path])
+       \/ Report([t |-> "DISAGREE", what |-> "original_accepts_no_member_does", rel |-> rel, path |-> path,
+                   dev |-> DevExplains])
 =============================================================================
